@@ -1,6 +1,6 @@
 SPECIFICATION Spec
 CONSTANTS
-  Warps = {"w0"}
+  Warps = {"w0", "w1"}
   Nodes = {"n0", "n1", "n2"}
   Edges = {"e0", "e1", "e2"}
   Types = {"tA", "tB"}
@@ -11,14 +11,14 @@ CONSTANTS
   Prog <- MC_Prog
   KeyRank <- MC_KeyRank
   Root <- MC_Root
-  CandU <- MC_CandU_life
-  AbortSets <- MC_AbortSets_one
+  CandU <- MC_CandU_portal
+  AbortSets <- MC_AbortSets_portal
   MaxTicks = 3
   MaxCands = 2
-  MaxCandsA = 1
+  MaxCandsA = 2
   MaxAborts = 1
   MaxJumps = 0
-  PreNames = {"hub"}
+  PreNames = {"hubportal"}
   Export = TRUE
   None = None
 INVARIANTS Inv_PatchStep Inv_Linear Inv_Jump Inv_Chain Inv_WellFormed Inv_TxBook Inv_ScriptFold Inv_AbortInvisible Inv_SliceDefs Inv_SliceWeak Inv_Unproduced Inv_Export
